@@ -228,6 +228,49 @@ func (u *c31Updater) Unsubscribe(device.Client, string) {}
 func (u *c31Updater) Start() error                      { return nil }
 
 // ---------------------------------------------------------------------------
+// mock ethernet interface (the repo's mock offers no non-blocking read of
+// what was sent and blocks the sender after 1024 frames)
+
+type c31Eth struct {
+	mu     sync.Mutex
+	frames [][]byte
+	dsts   []ethernet.MACAddr
+	closed chan struct{}
+}
+
+type c31EthFactory struct{}
+
+func (c31EthFactory) New(name string, bpf *ethernet.BPF, llc ethernet.LLC) (ethernet.EthernetInterfaceI, error) {
+	return &c31Eth{closed: make(chan struct{})}, nil
+}
+
+func (e *c31Eth) RecvPacket() ([]byte, ethernet.MACAddr, error) {
+	<-e.closed
+	return nil, ethernet.MACAddr{}, fmt.Errorf("socket closed")
+}
+
+func (e *c31Eth) SendPacket(dst ethernet.MACAddr, pkt []byte) error {
+	e.mu.Lock()
+	defer e.mu.Unlock()
+	e.frames = append(e.frames, append([]byte(nil), pkt...))
+	e.dsts = append(e.dsts, dst)
+	return nil
+}
+
+func (e *c31Eth) MCastJoin(ethernet.MACAddr) error { return nil }
+func (e *c31Eth) GetMTU() int                      { return 1500 }
+func (e *c31Eth) Close()                           { close(e.closed) }
+
+// take returns and forgets the frames sent so far.
+func (e *c31Eth) take() [][]byte {
+	e.mu.Lock()
+	defer e.mu.Unlock()
+	f := e.frames
+	e.frames, e.dsts = nil, nil
+	return f
+}
+
+// ---------------------------------------------------------------------------
 // rig
 
 var (
@@ -240,7 +283,7 @@ type c31Iface struct {
 	index uint64
 	base  uint32 // IPv4 /31 base address
 	nifa  *netIfa
-	eth   *ethernet.MockEthernetInterface
+	eth   *c31Eth
 }
 
 type c31Rig struct {
@@ -271,7 +314,7 @@ func c31NewRig(nUp int, withDownIface bool) *c31Rig {
 	if err != nil {
 		panic(err)
 	}
-	s.SetEthernetInterfaceFactory(ethernet.NewMockEthernetInterfaceFactory())
+	s.SetEthernetInterfaceFactory(c31EthFactory{})
 	s.SetHostnameFunc(func() (string, error) { return "verif", nil })
 	r.srv = s
 	names := []string{}
@@ -294,7 +337,7 @@ func c31NewRig(nUp int, withDownIface bool) *c31Rig {
 	r.clk.tagAll("hello") // the hello tickers of newNetIfa; never fired by the harness
 	for _, ifc := range r.ifaces {
 		ifc.nifa = s.netIfaManager.getInterface(ifc.name)
-		ifc.eth = ifc.nifa.ethernetInterface.(*ethernet.MockEthernetInterface)
+		ifc.eth = ifc.nifa.ethernetInterface.(*c31Eth)
 	}
 	// drop the refresh request of _start; nobody consumes it while the server is not started
 	r.drainRefresh()
@@ -452,7 +495,7 @@ func (r *c31Rig) close() {
 		}
 	}
 	for _, ifc := range r.ifaces {
-		ifc.eth.DrainBuffer()
+		ifc.eth.take()
 		_ = r.srv.RemoveInterface(ifc.name)
 	}
 	deadline := time.Now().Add(c31RealDeadline)
